@@ -193,8 +193,14 @@ def gen_think(rng: random.Random, scale: float) -> float:
     return round(rng.uniform(0, 4 * scale) / US) * US
 
 
-def gen_client_ops(rng: random.Random, keys: list[str], n: int, scale: float, mix: dict, scans=True) -> list[list]:
-    """ops: [think, op, key] | [think, 'scan', start, end]"""
+FALSY_VALUES = [0, 0.0, "", False, [], {}]
+
+
+def gen_client_ops(rng: random.Random, keys: list[str], n: int, scale: float, mix: dict, scans=True, falsy=0.0) -> list[list]:
+    """ops: [think, op, key] | [think, 'put'|'put_sync', key, value] | [think, 'scan', start, end]
+
+    With probability `falsy` a put writes one of the falsy values 0, 0.0, "", False, [], {} instead of its unique
+    string (a store must keep and delete them like any other value)."""
     ops = []
     names = list(mix)
     weights = [mix[k] for k in names]
@@ -211,13 +217,15 @@ def gen_client_ops(rng: random.Random, keys: list[str], n: int, scale: float, mi
                 ops.append([think, "scan", start, end])
                 continue
         ops.append([think, op, rng.choice(keys)])
+        if falsy and op in ("put", "put_sync") and rng.random() < falsy:
+            ops[-1].append(rng.choice(FALSY_VALUES))
     return ops
 
 
 BURST_OFFSETS = [0.0, 0.0, 0.0, 1e-6, 3e-6, 6e-6, 9e-6, 1.2e-5]
 
 
-def gen_burst_clients(rng: random.Random, keys: list[str], scale: float, mix: dict, scans=True, max_clients=9) -> list[dict]:
+def gen_burst_clients(rng: random.Random, keys: list[str], scale: float, mix: dict, scans=True, max_clients=9, falsy=0.0) -> list[dict]:
     """One-shot clients grouped in 1-3 bursts: the clients of one burst start within 0-12 microseconds of one
     instant (often the very same nanosecond), so that operations of different clients sit inside each other's
     shortest internal latencies (memtable write 10 us, transaction begin / write 1 us).  Each issues 1-2 ops."""
@@ -227,7 +235,7 @@ def gen_burst_clients(rng: random.Random, keys: list[str], scale: float, mix: di
         for _ in range(rng.randint(2, 5)):
             if len(clients) >= max_clients:
                 break
-            ops = gen_client_ops(rng, keys, rng.choice([1, 1, 2]), 0.0, mix, scans)
+            ops = gen_client_ops(rng, keys, rng.choice([1, 1, 2]), 0.0, mix, scans, falsy=falsy)
             for op in ops:
                 op[0] = rng.choice(BURST_OFFSETS)
             clients.append({"start": round((t + rng.choice(BURST_OFFSETS)) / US) * US, "ops": ops})
@@ -285,7 +293,7 @@ class StoreClient(Entity):
                 yield think
             now = self.now.nanoseconds
             if op == "put":
-                val = f"c{c}o{i}"
+                val = step[3] if len(step) > 3 else f"c{c}o{i}"
                 rec = h.begin(c, i, "put", now, key=step[2], val=val)
                 if self.ledger:
                     self.ledger(rec)
@@ -306,7 +314,7 @@ class StoreClient(Entity):
                 r = yield from st.scan(step[2], step[3])
                 h.end(rec, self.now.nanoseconds, [[k, v] for k, v in r])
             elif op == "put_sync":
-                val = f"c{c}o{i}"
+                val = step[3] if len(step) > 3 else f"c{c}o{i}"
                 rec = h.begin(c, i, "put", now, key=step[2], val=val, sync=True)
                 if self.ledger:
                     self.ledger(rec)
